@@ -281,7 +281,7 @@ func Gen(thorough bool) *rapid.Generator[Script] {
 		var s Script
 		qs := []uint64{1, 2, 3, 4, 5, 6}
 		if thorough {
-			qs = append(qs, 7, 10, 1000, 1 << 40)
+			qs = append(qs, 7, 10, 1000, 1<<40)
 		} else {
 			qs = append(qs, 1000, 1<<40)
 		}
